@@ -75,7 +75,7 @@ def run_csv(case):
     back = TrackReader.readFromCsv(path, e, nn, u, t, case['sep'], h=case['h'], srid=case['srid'])
     os.remove(path)
     stamps = [[o.timestamp.day, o.timestamp.month, o.timestamp.year, o.timestamp.hour, o.timestamp.min, o.timestamp.sec] for o in tr]
-    return {'text': text, 'stamps': stamps,
+    return {'text': text, 'stamps': stamps, 'back_stamps': [[o.timestamp.day, o.timestamp.month, o.timestamp.year, o.timestamp.hour, o.timestamp.min, o.timestamp.sec] for o in back],
             'back': [[o.position.getX(), o.position.getY(), o.position.getZ(), o.timestamp.toAbsTime()] for o in back]}
 
 
@@ -83,14 +83,16 @@ def coq_csv(case, obs):
     if 'exc' in obs:
         return None
     e, nn, u, t = case['ids']
-    lines = obs['text'].split('\n')[:-1]
-    if case['h'] != 0 or len(lines) != len(case['pts']) or case['sep'] == '\t':
+    lines = [l for l in obs['text'].split('\n')[:-1] if not l.startswith('#')]             # header / comment lines are skipped by the reader
+    if len(lines) != len(case['pts']) or len(obs['back']) != len(lines):
         return None
     (w, p) = (20, 10) if case['srid'] == 'GEO' else (10, 3)
+    st = lambda s: '(mk %d%%nat %d%%nat %d%%nat %d%%nat %d%%nat %d%%nat)' % tuple(s)
     rows = []
-    for (x, y, z), st, ln in zip(case['pts'], obs['stamps'], lines):
-        rows.append('(%s, %s, %s, (mk %d%%nat %d%%nat %d%%nat %d%%nat %d%%nat %d%%nat), "%s")' % (q(x), q(y), q(z), st[0], st[1], st[2], st[3], st[4], st[5], ln.replace('"', '""')))
-    return '(%d%%nat, %d%%nat, %d%%nat, %d%%nat, %s, %s, "%s", %s)' % (w, p, e, nn, '(Some %d%%nat)' % u if u >= 0 else 'None', '(Some %d%%nat)' % t if t >= 0 else 'None', case['sep'], coq_list(rows))
+    for (x, y, z), s1, ln, b, s2 in zip(case['pts'], obs['stamps'], lines, obs['back'], obs['back_stamps']):
+        rows.append('(%s, %s, %s, %s, "%s", (%s, %s, %s, %s))' % (q(x), q(y), q(z), st(s1), ln.replace('"', '""'), q(b[0]), q(b[1]), q(b[2]), st(s2)))
+    sep = '"%s"%%char' % case['sep'] if case['sep'] != '\t' else '(ascii_of_nat 9)'
+    return '(%d%%nat, %d%%nat, %d%%nat, %d%%nat, %s, %s, %s, %s)' % (w, p, e, nn, '(Some %d%%nat)' % u if u >= 0 else 'None', '(Some %d%%nat)' % t if t >= 0 else 'None', sep, coq_list(rows))
 
 
 def oracle_csv(case, obs):
@@ -113,31 +115,34 @@ def finding_csv(case, obs, why):
     return 'csv-header-flag' if case['h'] >= 1 else None
 
 
-CSV_CHECK = '''Fixpoint lstrip (s : string) : string := match s with String " " r => lstrip r | _ => s end.
-Definition mk d m y h mi s := {| day := d; month := m; year := y; hour := h; minute := mi; sec := s |}.
-Fixpoint join (sep : string) (l : list string) : string := match l with [] => "" | [a] => a | a :: r => a ++ sep ++ join sep r end.
-Definition line (w p idE idN : nat) (idU idT : option nat) (sep : string) (x y z : Q) (t : stamp) : string :=
-  let D := List.app [lstrip (fmt_fixed w p x); lstrip (fmt_fixed w p y)] (List.app (match idU with Some _ => [lstrip (fmt_fixed w p z)] | None => [] end) (match idT with Some _ => [string_of_list_ascii (TimeText.print t)] | None => [] end)) in
-  join sep (map (fun k => nth k D "") (printed idE idN idU idT)).
-Definition ok (c : nat * nat * nat * nat * option nat * option nat * string * list (Q * Q * Q * stamp * string)) : bool :=
+CSV_CHECK = '''Definition near (o : option Q) (b : Q) : bool :=           (* float(text) is the binary64 nearest to the decimal value of the text *)
+  match o with Some v => Qle_bool (Qabs (v - b) * (10 ^ 15 # 1)) (Qabs v) | None => false end.
+Definition stamp_eqb (a b : stamp) : bool :=
+  Nat.eqb (day a) (day b) && Nat.eqb (month a) (month b) && Nat.eqb (year a) (year b) && Nat.eqb (hour a) (hour b) && Nat.eqb (minute a) (minute b) && Nat.eqb (sec a) (sec b).
+Definition ok (c : nat * nat * nat * nat * option nat * option nat * ascii * list (Q * Q * Q * stamp * string * (Q * Q * Q * stamp))) : bool :=
   let '(w, p, idE, idN, idU, idT, sep, rows) := c in
-  forallb (fun '(x, y, z, t, expected) => if string_dec (line w p idE idN idU idT sep x y z t) expected then true else false) rows.'''
+  forallb (fun '(x, y, z, t, text, (bx, by_, bz, bt)) =>
+    (if string_dec (line w p idE idN idU idT (String sep "") x y z t) text then true else false)        (* writer *)
+    && (let fs := read_fields sep text in                                                                (* reader, on the text the implementation wrote *)
+        near (parse_fixed (nth idE fs "")) bx && near (parse_fixed (nth idN fs "")) by_
+        && (match idU with Some u => near (parse_fixed (nth u fs "")) bz | None => true end)
+        && (match idT with Some k => stamp_eqb (read_time (nth k fs "")) bt | None => true end))) rows.'''
 
 S_CSV = Stream(
     name='csv', budget={'quick': 250, 'thorough': 6000},
     rule=('tracks of 1..5 observations in ENU / Geo / ECEF with negative, large, many-decimal values and exact ties at the last printed decimal, timestamps at midnight / month / year ends and 29 Feb; '
           'every permutation of id_E id_N id_U id_T and every presence pattern, separators , ; | tab, h=0; observed: the file text (compared byte for byte with the model\'s writer) and '
           'the track read back with the same parameters; non-trivial = at least 2 observations'),
-    imports='From Coq Require Import List String Ascii ZArith QArith.\nImport ListNotations.\nFrom TL Require Import Model.TextFmt Proofs.Columns Proofs.TimeText.\nOpen Scope string_scope.',
-    case_type='nat * nat * nat * nat * option nat * option nat * string * list (Q * Q * Q * stamp * string)', check_def=CSV_CHECK,
+    imports='From Coq Require Import List String Ascii ZArith QArith Qabs Bool.\nImport ListNotations.\nFrom TL Require Import Model.TextFmt Proofs.Columns Proofs.TimeText Model.CsvText.\nClose Scope Z_scope.\nOpen Scope string_scope.',
+    case_type='nat * nat * nat * nat * option nat * option nat * ascii * list (Q * Q * Q * stamp * string * (Q * Q * Q * stamp))', check_def=CSV_CHECK,
     generate=gen_csv, run_impl=run_csv, coq_case=coq_csv, oracle=oracle_csv, finding_key=finding_csv,
     nontrivial=lambda c, o: len(c['pts']) >= 2, klass=lambda c, o: '%s,ids=%s' % (c['srid'], ''.join('-' if i < 0 else str(i) for i in c['ids'])))
 
 S_CSVH = Stream(
-    name='csv_header', budget={'quick': 40, 'thorough': 600},
-    rule='the same with the header flag: written with h=1 and read with h=1 (the writer stores the flag in fmt.h but tests fmt.header: open known finding "csv-header-flag")',
+    name='csv_header', budget={'quick': 100, 'thorough': 2000},
+    rule='the same with the header flag: written with h=1 (srid / reference point / column-name comment lines) and read with h=1; the data lines are compared with the model as in the csv stream',
     imports=S_CSV.imports, case_type=S_CSV.case_type, check_def=CSV_CHECK,
-    generate=lambda rng, n, tier: gen_csv(rng, n, tier, h=1), run_impl=run_csv, coq_case=lambda c, o: None, oracle=oracle_csv, finding_key=finding_csv,
+    generate=lambda rng, n, tier: gen_csv(rng, n, tier, h=1), run_impl=run_csv, coq_case=coq_csv, oracle=oracle_csv, finding_key=finding_csv,
     klass=lambda c, o: 'h=1')
 
 
